@@ -87,9 +87,9 @@ pub fn judge_plain_k(m: &dyn Model, cfg: &Cfg, out: &Out, primal: Option<isize>,
     let mc = model_class(m);
     let sp = if par { "par1" } else { "seq" };
     if out.hang {
-        f.push(Finding { prop: "C04", sig: format!("par1:hang:{:?}:{}", cfg.dd, if cfg.cache { "cache" } else { "nocache" }).to_lowercase(), what: "parallel maximize() with one worker did not return within 10 s (worker parked for ever)".to_string() });
-        if primal.is_none() { f.push(Finding { prop: "C03", sig: format!("par1:hang:{:?}:{}", cfg.dd, if cfg.cache { "cache" } else { "nocache" }).to_lowercase(), what: "parallel maximize() with one worker did not return within 10 s".to_string() }); }
-        if cfg.cache && primal.is_none() { f.push(Finding { prop: "C09", sig: format!("par1:hang:{:?}:cache", cfg.dd).to_lowercase(), what: "parallel caching solver with one worker did not return within 10 s".to_string() }); }
+        f.push(Finding { prop: "C04", sig: format!("par1:hang:{:?}:{}", cfg.dd, if cfg.cache { "cache" } else { "nocache" }).to_lowercase(), what: "parallel maximize() with one worker did not return (20 s, then 120 s on a second attempt: worker parked for ever)".to_string() });
+        if primal.is_none() { f.push(Finding { prop: "C03", sig: format!("par1:hang:{:?}:{}", cfg.dd, if cfg.cache { "cache" } else { "nocache" }).to_lowercase(), what: "parallel maximize() with one worker did not return (two attempts)".to_string() }); }
+        if cfg.cache && primal.is_none() { f.push(Finding { prop: "C09", sig: format!("par1:hang:{:?}:cache", cfg.dd).to_lowercase(), what: "parallel caching solver with one worker did not return (two attempts)".to_string() }); }
         return f;
     }
     if let Some(p) = &out.panicked {
@@ -151,7 +151,7 @@ pub fn fmt_sol(sol: &[Decision]) -> Vec<(usize, isize)> { sol.iter().map(|d| (d.
 /// monitors of a run cut off at poll k (C05)
 pub fn judge_cut(m: &dyn Model, cfg: &Cfg, out: &Out) -> Vec<Finding> {
     let mut f = vec![];
-    if out.hang { f.push(Finding { prop: "C04", sig: format!("par1:cut:hang:{:?}", cfg.dd).to_lowercase(), what: "parallel maximize() with one worker and a cut-off did not return within 10 s".to_string() }); return f; }
+    if out.hang { f.push(Finding { prop: "C04", sig: format!("par1:cut:hang:{:?}", cfg.dd).to_lowercase(), what: "parallel maximize() with one worker and a cut-off did not return (two attempts)".to_string() }); return f; }
     let opt = m.opt();
     if let Some(p) = &out.panicked { f.push(Finding { prop: "C05", sig: format!("seq:cut:panic:{}", cfg.short()), what: format!("panicked: {}", p) }); return f; }
     let o = opt.unwrap_or(isize::MIN);
@@ -311,10 +311,13 @@ pub fn vshort(v: &Variant) -> String {
 }
 
 pub fn run_plans(rep: &Reporter, focus: &[&str], plans: &[Plan], deadline: Option<Instant>) -> (Agg, Vec<Value>, bool) {
+    // cheapest scopes first: a wall clock cap (loaded machine) then only cuts the largest enumerations
+    let mut sorted: Vec<&Plan> = plans.iter().collect();
+    sorted.sort_by_key(|p| p.limit.map_or(p.fam.count(), |l| l.min(p.fam.count())) * if p.rotate { 1 } else { p.variants.len() as u64 } * p.cfgs.len() as u64);
     let mut total = Agg::default();
     let mut scopes = vec![];
     let mut all_complete = true;
-    for plan in plans {
+    for plan in sorted {
         let n = plan.limit.map_or(plan.fam.count(), |l| l.min(plan.fam.count()));
         let t0 = Instant::now();
         let chunk = (n / (nthreads() as u64 * 8)).clamp(1, 4096);
